@@ -608,9 +608,11 @@ func tryInsertLiteral(ad *classad.ClassAd, attr, valueStr string) error {
 	// String literals (quoted)
 	trimmed := strings.TrimSpace(valueStr)
 	if len(trimmed) >= 2 && trimmed[0] == '"' && trimmed[len(trimmed)-1] == '"' {
-		// Simple string without escape sequences
+		// Simple string without escape sequences. An interior quote means the value
+		// is not ONE string literal (`"a" + "b"`, or adjacent literals `"a" "b"`):
+		// leave those to the full parser.
 		unquoted := trimmed[1 : len(trimmed)-1]
-		if !strings.Contains(unquoted, "\\") {
+		if !strings.ContainsAny(unquoted, "\\\"") {
 			_ = ad.Set(attr, unquoted) // ClassAd.Set always returns nil, safe to ignore
 			return nil
 		}
